@@ -968,6 +968,32 @@ def check_every_listener_closed(eng, run):
     run.ob("C18.tear", f"{fn.short}:one-task-per-listener", ok, spawns=len(spawns))
 
 
+def check_service_stack_entered_before_use(eng, run):
+    """the exit stack a request handler fills in service_init() (task groups, teardown callbacks) already belongs to the server's
+    teardown chain when the handler receives it: it is the result of `server_exit_stack.enter_async_context(AsyncExitStack())`.  A
+    detached stack that is only entered after service_init() returned is dropped unclosed when shutdown() / a failure arrives during
+    service_init(): shutdown() returns while the handler's background tasks keep running."""
+    n = 0
+    for fn in eng.db.all_functions():
+        if isinstance(fn.node, ast.Lambda) or not fn.module.name.startswith("easynetwork.servers"):
+            continue
+        for c in own_nodes(fn.node):
+            if isinstance(c, ast.Call) and isinstance(c.func, ast.Attribute) and c.func.attr == "service_init" and c.args:
+                n += 1
+                a0 = c.args[0]
+                if isinstance(a0, ast.Name):
+                    from sa.analyses.buffers import through_local
+                    a0 = through_local(fn, a0)
+                v = a0.value if isinstance(a0, ast.Await) else a0
+                ok = isinstance(v, ast.Call) and isinstance(v.func, ast.Attribute) and v.func.attr in ("enter_async_context", "enter_context") and v.args \
+                    and isinstance(v.args[0], ast.Call) and (dotted(v.args[0].func) or "").split(".")[-1] in ("AsyncExitStack", "ExitStack")
+                if not ok:
+                    run.finding("C18.tear", fn, _stmt_at(fn, c.lineno), "the exit stack handed to service_init() is not one that was just entered on the server's own exit stack: what the handler registers on it "
+                                "(task groups, teardown callbacks) is lost if serve_forever() is stopped or fails while service_init() is still running")
+                run.ob("C18.tear", f"{fn.short}:service-stack-entered-before-service_init", ok)
+    run.floor("C18.tear service_init() calls of the servers", n, 2)
+
+
 def run(eng, run):
     from sa.anchors import verify as _verify_anchor_names
     _verify_anchor_names(eng, run)
@@ -984,6 +1010,7 @@ def run(eng, run):
     run.attempt(check_shared_future_awaits, eng, run, "C18.tear")
     run.attempt(check_tear, eng, run)
     run.attempt(check_portal, eng, run)
+    run.attempt(check_service_stack_entered_before_use, eng, run)
     run.attempt(check_portal_cancel_reaches_thread_as_cancellation, eng, run)
     run.attempt(check_every_listener_closed, eng, run)
     run.attempt(check_join_shuts_down, eng, run)
